@@ -171,6 +171,11 @@ func c24(x *ctx) {
 			refs = append(refs, cref{pi, m})
 		}
 	}
+	// same method name in two classes (and at top level): every definition must get its own section
+	sameName := "class Cat\n  def speak\n    1\n  end\nend\nclass Dog\n  def speak\n    \"s\"\n  end\nend\ndef chorus(c, d)\n  c.speak\n  d.speak\nend\ndef solo(c)\n  c.speak\nend\nchorus(Cat.new, Dog.new)\nsolo(Cat.new)\n"
+	sameIdx := len(cases)
+	cases = append(cases, &engine.Case{Cfg: "core", Files: map[string]string{"t.rb": sameName}, Argv: []string{"t.rb", "--llm-nav", "--target=speak"}})
+	refs = append(refs, cref{-1, "speak"})
 	res := x.pool.RunAll(cases)
 	type viol struct {
 		idx  int
@@ -183,6 +188,19 @@ func c24(x *ctx) {
 		r.Transitions++
 		r.Nontrivial++
 		ref := refs[i]
+		if i == sameIdx {
+			r.Outcome(rr.Stdout)
+			n := strings.Count(rr.Stdout, "\n## ")
+			if strings.HasPrefix(rr.Stdout, "## ") {
+				n++
+			}
+			totals := strings.Count(rr.Stdout, "- total callers:")
+			if n != 2 || totals != 2 || !strings.Contains(rr.Stdout, "Cat") || !strings.Contains(rr.Stdout, "Dog") {
+				s := fmt.Sprintf("c24:same-name-sections:sections=%d:totals=%d", n, totals)
+				bySig[s] = append(bySig[s], viol{i, fmt.Sprintf("--target=speak with Cat#speak and Dog#speak: %d `## ` sections, %d `total callers` lines (2 and 2 expected)", n, totals)})
+			}
+			continue
+		}
 		p := progs[ref.pi]
 		if rr.Abnormal() {
 			s := "abnormal:" + outOf(rr)
